@@ -249,7 +249,27 @@ func CanonElem(e r.Element) string {
 	return b.String()
 }
 
+// elemPath: see canonPath (per call: display capture may run on several goroutines).
+type elemPath []r.Element
+
+func (ep *elemPath) enter(b *strings.Builder, e r.Element) bool {
+	for _, p := range *ep {
+		if p == e {
+			b.WriteString("<cycle>")
+			return false
+		}
+	}
+	*ep = append(*ep, e)
+	return true
+}
+
+func (ep *elemPath) leave() { *ep = (*ep)[:len(*ep)-1] }
+
 func canonElem(b *strings.Builder, e r.Element, depth int) {
+	canonElemP(b, e, depth, &elemPath{})
+}
+
+func canonElemP(b *strings.Builder, e r.Element, depth int, ep *elemPath) {
 	if depth > 40 {
 		b.WriteString("<deep>")
 		return
@@ -272,15 +292,23 @@ func canonElem(b *strings.Builder, e r.Element, depth int) {
 	case *value.Null:
 		b.WriteString("空")
 	case *value.Array:
+		if !ep.enter(b, x) {
+			return
+		}
+		defer ep.leave()
 		b.WriteByte('[')
 		for i, it := range x.GetValue() {
 			if i > 0 {
 				b.WriteByte(',')
 			}
-			canonElem(b, it, depth+1)
+			canonElemP(b, it, depth+1, ep)
 		}
 		b.WriteByte(']')
 	case *value.HashMap:
+		if !ep.enter(b, x) {
+			return
+		}
+		defer ep.leave()
 		b.WriteByte('{')
 		m := x.GetValue()
 		for i, k := range x.GetKeyOrder() {
@@ -290,7 +318,7 @@ func canonElem(b *strings.Builder, e r.Element, depth int) {
 			b.WriteString(strconv.Quote(k))
 			b.WriteByte(':')
 			if v, ok := m[k]; ok {
-				canonElem(b, v, depth+1)
+				canonElemP(b, v, depth+1, ep)
 			} else {
 				b.WriteString("<missing>")
 			}
@@ -300,10 +328,14 @@ func canonElem(b *strings.Builder, e r.Element, depth int) {
 		}
 		b.WriteByte('}')
 	case *value.Object:
+		if !ep.enter(b, x) {
+			return
+		}
+		defer ep.leave()
 		b.WriteString("obj:" + x.GetObjectName() + "{")
 		// properties are only reachable by name; the class's names are not
 		// exported, so callers that need them use ObjProps.
-		b.WriteString(ObjPropsCanon(x, depth))
+		b.WriteString(objPropsCanon(x, depth, ep))
 		b.WriteByte('}')
 	case *value.Function:
 		b.WriteString("<method>")
@@ -320,13 +352,17 @@ func canonElem(b *strings.Builder, e r.Element, depth int) {
 var ObjPropNames []string
 
 func ObjPropsCanon(o *value.Object, depth int) string {
+	return objPropsCanon(o, depth, &elemPath{})
+}
+
+func objPropsCanon(o *value.Object, depth int, ep *elemPath) string {
 	var parts []string
 	names := append([]string{}, ObjPropNames...)
 	sort.Strings(names)
 	for _, n := range names {
 		if v, err := o.GetProperty(n); err == nil {
 			var b strings.Builder
-			canonElem(&b, v, depth+1)
+			canonElemP(&b, v, depth+1, ep)
 			parts = append(parts, n+":"+b.String())
 		}
 	}
